@@ -4,6 +4,7 @@ import Xrl.Spec.Interp
 import Xrl.Spec.DataInv
 import Xrl.Spec.Scatter
 import Xrl.Spec.Groups
+import Xrl.Spec.Auger
 /-!
 # `spec.*` operations of the driver: the executable specifications in the `Float` reading
 
@@ -48,6 +49,9 @@ def dispatchSpec (T : Tables Float) (fn : String) (a : Array String) : Option St
   | "spec.MomentTransf", 2 => some (fmtE (Spec.MomentTransf (pF a[0]!) (pF a[1]!)))
   | "spec.LineEnergy", 2 => some (fmtE (Spec.LineEnergy T (pI a[0]!) (pI a[1]!)))
   | "spec.RadRate", 2 => some (fmtE (Spec.RadRate T (pI a[0]!) (pI a[1]!)))
+  | "spec.augerYield", 2 => some ("value " ++ fmtF (Spec.augerYield T (pI a[0]!) (pI a[1]!)))
+  | "spec.netTotal", 2 => some ("value " ++ fmtF (Spec.netTotal T (pI a[0]!) (pI a[1]!)))
+  | "spec.augerRate", 2 => some ("value " ++ fmtF (Spec.augerRate T (pI a[0]!) (pI a[1]!)))
   | "spec.shapeFailures", 0 => some ("shape " ++ toString ((Spec.shapeFailures T).map (fun p => p.1 ++ ":" ++ toString p.2)))
   | _, _ => none
 
